@@ -22,7 +22,7 @@ META = {
              "(scenario, event digest); non-trivial = >=2 chunks on each side and >=2 jobs open at once"),
     "abstract_measure": "distinct (scenario, collection kind) pairs",
     "gates": {"quick": {"bind": 1500, "wait_on": 800, "checkpoint": 800, "clone": 800, "multi_open": 2500,
-                        "order_could_differ": 1000},
+                        "order_could_differ": 1000, "blockwise_literal_or_repeated_operand": 200},
               "thorough": {"bind": 1500}},
     "anchors": ["dask/graph_manipulation.py", "dask/highlevelgraph.py", "dask/blockwise.py"],
     "real": ["dask.graph_manipulation.bind/wait_on/checkpoint/clone", "dask.array / dask.bag / dask.delayed graph "
@@ -76,13 +76,19 @@ def base(kind, n, off=0):
     return [dask.delayed(off + i, name=f"lit-{off}-{i}") for i in range(n)]
 
 
-def apply(kind, coll, tag, other=None):
+def apply(kind, coll, tag, other=None, variant=0):
+    """variant (arrays): 1 a positional literal operand, 2 the same array twice --
+    Blockwise layers with more index entries than distinct block inputs."""
     import dask
 
     f = taskfns.M(tag)
     if kind == "array":
         if other is not None:
             return coll.map_blocks(f, other, dtype=coll.dtype)
+        if variant == 1:
+            return coll.map_blocks(f, 10, dtype=coll.dtype)
+        if variant == 2:
+            return coll.map_blocks(f, coll, dtype=coll.dtype)
         return coll.map_blocks(f, dtype=coll.dtype)
     if kind == "bag":
         return coll.map_partitions(f)
@@ -122,8 +128,11 @@ def run_one(tape, cfg):
         seed = (None, 1, "s")[tape.draw(3, "seed")]
         assume_layers = not tape.chance(1, 3, "assume")
         optimize = not tape.chance(1, 3, "noopt")
+        variant = tape.draw(3, "variant") if kind == "array" else 0
     wl = {"scenario": scen, "kind": kind, "n1": n1, "n2": n2, "split_every": split_every, "seed": seed,
-          "assume_layers": assume_layers, "optimize_graph": optimize}
+          "assume_layers": assume_layers, "optimize_graph": optimize, "variant": variant}
+    if variant and scen in ("bind_dep_omit", "bind_shared_omit", "clone"):
+        out.probe("blockwise_literal_or_repeated_operand")
     out.decoded = wl
     out.wdigest = dg(wl)
     out.abstract = ((scen, kind),)
@@ -168,14 +177,14 @@ def run_one(tape, cfg):
                 ctags, ptags, free = ("C", "CB"), ("P",), ()
             elif scen == "bind_dep_omit":
                 P = apply(kind, base(kind, n1, 0), "P")
-                C = apply(kind, P, "C")
+                C = apply(kind, P, "C", variant=variant)
                 want = eager(kind, C)
                 C2 = bind(C, P, omit=P, split_every=split_every, **bkw)
                 ctags, ptags, free = ("C",), ("P",), ()
             else:
                 O = apply(kind, base(kind, n1, 0), "O")
                 P = apply(kind, O, "P")
-                C = apply(kind, O, "C")
+                C = apply(kind, O, "C", variant=variant)
                 want = eager(kind, C)
                 C2 = bind(C, P, omit=O, split_every=split_every, **bkw)
                 ctags, ptags, free = ("C",), ("P",), ("O",)
@@ -243,7 +252,7 @@ def run_one(tape, cfg):
                             f"Y chunks")
         else:  # clone
             O = apply(kind, base(kind, n1, 0), "O")
-            X = apply(kind, O, "X")
+            X = apply(kind, O, "X", variant=variant)
             use_omit = tape.chance(1, 2, "omit")
             Xc = clone(X, omit=O if use_omit else None, **bkw)
             want = eager(kind, X)
